@@ -312,6 +312,9 @@ class Env:
 
 def from_ast(e: ast.AST, env: Env) -> Term:
     if isinstance(e, ast.Constant):
+        if isinstance(e.value, complex):
+            # a + b j with the imaginary unit as a symbol (j*j is NOT reduced: enough to compare linear expressions)
+            return Term.const(Fraction(e.value.real)) + Term.const(Fraction(e.value.imag)) * Term.sym('1j')
         if isinstance(e.value, bool) or not isinstance(e.value, (int, float)):
             raise Unknown('non-numeric constant %r' % (e.value,))
         return Term.const(Fraction(e.value))
@@ -359,6 +362,9 @@ def from_ast(e: ast.AST, env: Env) -> Term:
         fs = norm(e.func)
         if fs in TRANSPARENT or fs.split('.')[-1] == 'cast':
             return from_ast(e.args[-1], env)
+        if isinstance(e.func, ast.Attribute) and e.func.attr in ('sum', 'mean') and not e.args and not e.keywords \
+                and not (isinstance(e.func.value, ast.Name) and e.func.value.id in ('np', 'numpy', 'math')):
+            return t_call(e.func.attr, [from_ast(e.func.value, env)])           # x.sum() is np.sum(x)
         args = [from_ast(a, env) for a in e.args]
         kw = {(k.arg or '**'): from_ast(k.value, env) for k in e.keywords}
         if isinstance(e.func, ast.Name) and e.func.id in env.fun_alias:
@@ -366,6 +372,10 @@ def from_ast(e: ast.AST, env: Env) -> Term:
         fname = CANON_FUNCS.get(fs)
         if fname is not None and not kw:
             return t_call(fname, args)
+        if fs in ('np.multiply', 'np.divide', 'np.true_divide', 'np.add', 'np.subtract') and len(args) == 2 and set(kw) <= {'out'}:
+            a_, b_ = args
+            return a_ * b_ if fs == 'np.multiply' else a_ + b_ if fs == 'np.add' else a_ - b_ if fs == 'np.subtract' \
+                else a_ * t_pow(b_, Term.const(-1))
         if fs in ('np.where', 'numpy.where') and len(args) == 3 and not kw:
             if _snap_test(e.args[0]) == norm(e.args[2]) and args[1].is_const() and args[1].const_value() == 0:
                 return args[2]          # snap-to-zero idiom: the identity up to the literal tiny threshold
@@ -471,6 +481,20 @@ def function_term(model: Optional[Model], fn: FuncInfo, inline: Optional[Set[str
                 continue
             if is_snap_store(s):
                 continue
+            if isinstance(s, ast.AugAssign) and isinstance(s.target, ast.Name) and isinstance(s.op, (ast.Add, ast.Sub, ast.Mult, ast.Div, ast.Pow)):
+                cur = env.vars.get(s.target.id, Term.sym(s.target.id))
+                val = from_ast(s.value, env)
+                if isinstance(s.op, ast.Add):
+                    env.vars[s.target.id] = cur + val
+                elif isinstance(s.op, ast.Sub):
+                    env.vars[s.target.id] = cur - val
+                elif isinstance(s.op, ast.Mult):
+                    env.vars[s.target.id] = cur * val
+                elif isinstance(s.op, ast.Div):
+                    env.vars[s.target.id] = cur * t_pow(val, Term.const(-1))
+                else:
+                    env.vars[s.target.id] = t_pow(cur, val)
+                continue
             if isinstance(s, (ast.Assign, ast.AnnAssign)):
                 tg = s.targets[0] if isinstance(s, ast.Assign) else s.target
                 if s.value is None:
@@ -544,6 +568,20 @@ def path_terms(model: Optional[Model], fn: FuncInfo, inline: Optional[Set[str]] 
                 continue
             if is_snap_store(s):
                 continue
+            if isinstance(s, ast.AugAssign) and isinstance(s.target, ast.Name) and isinstance(s.op, (ast.Add, ast.Sub, ast.Mult, ast.Div, ast.Pow)):
+                cur = env.vars.get(s.target.id, Term.sym(s.target.id))
+                val = from_ast(s.value, env)
+                if isinstance(s.op, ast.Add):
+                    env.vars[s.target.id] = cur + val
+                elif isinstance(s.op, ast.Sub):
+                    env.vars[s.target.id] = cur - val
+                elif isinstance(s.op, ast.Mult):
+                    env.vars[s.target.id] = cur * val
+                elif isinstance(s.op, ast.Div):
+                    env.vars[s.target.id] = cur * t_pow(val, Term.const(-1))
+                else:
+                    env.vars[s.target.id] = t_pow(cur, val)
+                continue
             if isinstance(s, (ast.Assign, ast.AnnAssign)):
                 tg = s.targets[0] if isinstance(s, ast.Assign) else s.target
                 if s.value is None:
@@ -597,18 +635,82 @@ def local_terms(model: Optional[Model], fn: FuncInfo, inline: Optional[Set[str]]
                     counts[x.id] = counts.get(x.id, 0) + 2
     env = Env(model, fn, inline, None, opaque)
     out: Dict[str, Term] = {}
-    for n in sorted((n for n in walk_no_nested(fn.node) if isinstance(n, (ast.Assign, ast.AnnAssign))),
-                    key=lambda n: n.lineno):
+    # names (re)bound ONLY by top-level statements of the function body follow sequential semantics (the value after the
+    # last of them); augmented assignments included
+    nested: Set[str] = set()
+    for top in fn.node.body:
+        if isinstance(top, (ast.Assign, ast.AnnAssign, ast.AugAssign, ast.Expr, ast.Return, ast.Pass, ast.Assert)):
+            continue
+        for x in ast.walk(top):
+            if isinstance(x, ast.Name) and isinstance(x.ctx, (ast.Store, ast.Del)):
+                nested.add(x.id)
+    sequential = {k for k, v in counts.items() if v > 1 and k not in nested and k not in fn.params}
+    top_level = {id(n) for n in fn.node.body}
+    for n in sorted((n for n in walk_no_nested(fn.node) if isinstance(n, (ast.Assign, ast.AnnAssign, ast.AugAssign))),
+                    key=lambda n: (n.lineno, n.col_offset)):
+        if isinstance(n, ast.AugAssign):
+            if isinstance(n.target, ast.Name) and n.target.id in sequential and id(n) in top_level and n.target.id in env.vars \
+                    and isinstance(n.op, (ast.Add, ast.Sub, ast.Mult, ast.Div)):
+                try:
+                    val = from_ast(n.value, env)
+                except Unknown:
+                    env.vars.pop(n.target.id, None)
+                    out.pop(n.target.id, None)
+                    continue
+                cur = env.vars[n.target.id]
+                t = cur + val if isinstance(n.op, ast.Add) else cur - val if isinstance(n.op, ast.Sub) else \
+                    cur * val if isinstance(n.op, ast.Mult) else cur * t_pow(val, Term.const(-1))
+                env.vars[n.target.id] = t
+                out[n.target.id] = t
+            continue
         tg = n.targets[0] if isinstance(n, ast.Assign) else n.target
-        if not isinstance(tg, ast.Name) or n.value is None or counts.get(tg.id, 0) != 1:
+        if not isinstance(tg, ast.Name) or n.value is None:
+            continue
+        if counts.get(tg.id, 0) != 1 and not (tg.id in sequential and id(n) in top_level):
             continue
         try:
             t = from_ast(n.value, env)
         except Unknown:
+            env.vars.pop(tg.id, None)
+            out.pop(tg.id, None)
             continue
         env.vars[tg.id] = t
         out[tg.id] = t
     return out
+
+
+def block_env(model: Optional[Model], fn: FuncInfo, stmts: List[ast.stmt], env: Optional[Env] = None,
+              opaque: Optional[Set[str]] = None) -> Env:
+    """Sequential semantics of a straight-line statement list: plain and augmented assignments to names, and ufunc calls
+    writing into a named local through out= (np.divide(x, n, out=x)).  Anything else that binds a name forgets it."""
+    env = env or Env(model, fn, None, None, opaque)
+    for s in stmts:
+        try:
+            if isinstance(s, (ast.Assign, ast.AnnAssign)) and s.value is not None:
+                tg = s.targets[0] if isinstance(s, ast.Assign) else s.target
+                if isinstance(tg, ast.Name):
+                    env.vars[tg.id] = from_ast(s.value, env)
+                continue
+            if isinstance(s, ast.AugAssign) and isinstance(s.target, ast.Name) and isinstance(s.op, (ast.Add, ast.Sub, ast.Mult, ast.Div)):
+                cur = env.vars.get(s.target.id, Term.sym(s.target.id))
+                val = from_ast(s.value, env)
+                env.vars[s.target.id] = cur + val if isinstance(s.op, ast.Add) else cur - val if isinstance(s.op, ast.Sub) else \
+                    cur * val if isinstance(s.op, ast.Mult) else cur * t_pow(val, Term.const(-1))
+                continue
+            if isinstance(s, ast.Expr) and isinstance(s.value, ast.Call):
+                outs = [k.value for k in s.value.keywords if k.arg == 'out']
+                if outs and isinstance(outs[0], ast.Name):
+                    env.vars[outs[0].id] = from_ast(s.value, env)
+                continue
+        except Unknown:
+            for x in ast.walk(s):
+                if isinstance(x, ast.Name) and isinstance(x.ctx, ast.Store):
+                    env.vars.pop(x.id, None)
+            continue
+        for x in ast.walk(s):
+            if isinstance(x, ast.Name) and isinstance(x.ctx, ast.Store):
+                env.vars.pop(x.id, None)
+    return env
 
 
 def atoms_of(t: Term):
